@@ -16,6 +16,13 @@ Theorem C08_src_receive_next : forall m cap mm r, receive_next_src m cap mm r = 
 Proof. exact receive_next_src_eq. Qed.
 Print Assumptions C08_src_receive_next.
 
+(* ... and receive_next as it is in the repository since fix a146cb8 (read the header words, validate a second time, then use
+   them; the fragments above are read from THAT text): assembled with the second do_validate it is the model's version W64R,
+   the one the check runs and C08_interleaved_repaired / C08_seqlock are about *)
+Theorem C08_src_receive_next_revalidated : forall m cap mm r, receive_next_srcR m cap mm r = receive_next m W64R cap mm r.
+Proof. exact receive_next_srcR_eq. Qed.
+Print Assumptions C08_src_receive_next_revalidated.
+
 (* do_validate compares stream positions in 64 bits (W64, the repaired code) *)
 Theorem C08_src_do_validate : forall m cap mm c,
   src_bc_rx_do_validate m cap (get64 mm (intent_idx cap)) c = do_validate m W64 cap mm c.
